@@ -59,6 +59,22 @@ def default_bindings():
     }
 
 
+_ACTIVE = []  # stack of [(module, name, original, replacement)]
+
+
+@contextlib.contextmanager
+def unpatched():
+    """temporarily restore the real bindings (concrete replay from inside a symbolic run)"""
+    flat = [e for frame in _ACTIVE for e in frame]
+    for module, k, orig, _ in reversed(flat):
+        setattr(module, k, orig)
+    try:
+        yield
+    finally:
+        for module, k, _, repl in flat:
+            setattr(module, k, repl)
+
+
 @contextlib.contextmanager
 def patched(extra=None):
     """rebind module globals; `extra` = {module: {name: obj}} adds/overrides bindings"""
@@ -66,17 +82,19 @@ def patched(extra=None):
     for m, d in (extra or {}).items():
         b.setdefault(m, {}).update(d)
     saved = []
+    _ACTIVE.append(saved)
     try:
         for m, d in b.items():
             module = mod(m)
             for k, v in d.items():
                 if not hasattr(module, k):
                     raise RuntimeError(f"harness out of date: virocon.{m} has no global '{k}'")
-                saved.append((module, k, getattr(module, k)))
+                saved.append((module, k, getattr(module, k), v))
                 setattr(module, k, v)
         yield
     finally:
-        for module, k, v in reversed(saved):
+        _ACTIVE.pop()
+        for module, k, v, _ in reversed(saved):
             setattr(module, k, v)
 
 
